@@ -3,6 +3,7 @@ from . import _stream as S
 
 PROP = "C04"
 LEVEL = "exploration"
+BLOCK = 32   # neighbouring configurations share a worker process
 RULE = ("all ten classes, grid + seeded random, 1..4 adjoint passes; at every EndReverse the executor store must be empty (single-pass classes) or equal to the store at EndForward (multi-pass); non-trivial = >= 1 checkpoint written; distinct = distinct (class, parameters, passes)")
 REQUIRED = ["C04.store_empty_at_end", "C04.store_equals_end_forward"]
 ASSUMPTIONS = ["executor semantics follow tests/test_validity.py",
